@@ -522,7 +522,11 @@ class FraunhoferPropagator(LinearOperator):
         self.dx_D: Tuple[float, ...] = tuple(np.abs(2 * np.pi * z / (k0 * l)) for l in L)
         #: Destination plane side length
         self.L_D: Tuple[float, ...] = tuple(np.abs(2 * np.pi * z / (k0 * d)) for d in dx)
-        x_D = tuple(np.r_[-l / 2 : l / 2 : d] for l, d in zip(self.L_D, self.dx_D))  # type: ignore
+        # N_i samples of spacing dx_D starting at -L_D / 2 (a float-step range, np.r_[-l/2 : l/2 : d], can
+        # have one sample too many because of rounding)
+        x_D = tuple(
+            -l / 2 + d * np.arange(n) for l, d, n in zip(self.L_D, self.dx_D, input_shape)
+        )
 
         # set up radial coordinate system; either x^2 or (x^2 + y^2)
         if ndim == 1:
